@@ -248,6 +248,11 @@ def run_unit(ctx, p):
             again = q.unit().A
         elif api == 'UnitQuaternion.ctor':
             form, kw = p.get('form', 'vec'), ({} if p.get('check') is None else dict(check=bool(p['check'])))
+            flagval = {'True': True, '1': 1, 'np.True_': np.True_, 'np.int64(1)': np.int64(1)}
+            if p.get('normflag'):          # normalisation asked for explicitly, by True or by another true value (a NumPy comparison gives numpy.True_)
+                kw['norm'] = flagval[p['normflag']]
+            if p.get('checkflag') and 'check' in kw:
+                kw['check'] = {True: flagval[p['checkflag']], False: {'True': False, '1': 0, 'np.True_': np.False_, 'np.int64(1)': np.int64(0)}[p['checkflag']]}[kw['check']]
             if form == 'sv':
                 q = sm.UnitQuaternion(float(v[0]), v[1:], **kw)
             elif form == 'list':
@@ -483,6 +488,10 @@ def run(ctx):
         if api == 'UnitQuaternion.ctor':
             p['form'] = ['vec', 'sv', 'list', 'list_of_vecs', 'Nx4'][rng.integers(5)]
             p['check'] = [None, True, False][rng.integers(3)]       # the default normalisation must not depend on the check option
+            if rng.random() < 0.3:
+                p['normflag'] = ['True', '1', 'np.True_', 'np.int64(1)'][rng.integers(4)]
+            if rng.random() < 0.2:
+                p['checkflag'] = ['1', 'np.True_', 'np.int64(1)'][rng.integers(3)]
             if p['form'] in ('list_of_vecs', 'Nx4'):
                 k = int(rng.integers(1, 4)) if p['form'] == 'list_of_vecs' else int([1, 2, 4, 5][rng.integers(4)])
                 p['others'] = [rng.normal(size=4) * gen.logu(rng, 1e-3, 1e3) for _ in range(k)]
